@@ -191,7 +191,13 @@ def random_case(rng):
         else:
             ln = rng.choice([1, 2, 5, rng.randint(1, 60)])
             st = rng.randint(1, 50)
-            rows.append(conv.jfrag(oid, f"c{oid}", st, st + ln - 1, rng.choice([1, -1, 0]))); oid += 1
+            prev = [r for r in rows if r["t"] == "F"]
+            if prev and rng.random() < 0.12:
+                # the same contig region listed again as a separate row (equal value, different object)
+                d = dict(rng.choice(prev)); d["oid"] = oid
+                rows.append(d); oid += 1
+            else:
+                rows.append(conv.jfrag(oid, f"c{oid}", st, st + ln - 1, rng.choice([1, -1, 0]))); oid += 1
     L = sum(r["len"] if r["t"] == "G" else r["end"] - r["start"] + 1 for r in rows)
     a = rng.randint(1, max(1, L)); b = rng.randint(a, L + 5)
     ops = []
@@ -210,7 +216,7 @@ def run(ctx):
     if ctx.thorough:
         check_cases(ctx, "small-scope", small_scope(rng, 3, 2))
         ctx.out.exhaustive = True
-        check_cases(ctx, "small-scope-sampled-4rows-3ops", small_scope(rng, 3, 3, sample=60000))
+        check_cases(ctx, "small-scope-sampled-4rows-3ops", small_scope(rng, 3, 3, sample=25000))
     else:
         check_cases(ctx, "small-scope", small_scope(rng, 2, 1))
         ctx.out.exhaustive = True
